@@ -150,6 +150,36 @@ theorem FInv_stepDoFlush {s s' : State}  (hi : FInv s) (h : stepDoFlush s  = som
   leaves h
   all_goals (subst h; refine FInv_of_same (s := s) rfl ?_ hi; tqsame)
 
+theorem FInv_stepWTake {s s' : State}  (hi : FInv s) (h : stepWTake s  = some s') : FInv s' := by
+  unfold stepWTake at h
+  leaves h
+  all_goals (subst h; refine FInv_of_same (s := s) rfl ?_ hi; tqsame)
+
+theorem FInv_stepWDo {s s' : State}  (hi : FInv s) (h : stepWDo s  = some s') : FInv s' := by
+  unfold stepWDo at h
+  leaves h
+  all_goals (subst h; refine FInv_of_same (s := s) rfl ?_ hi; tqsame)
+
+theorem FInv_stepWBlock {s s' : State}  (hi : FInv s) (h : stepWBlock s  = some s') : FInv s' := by
+  unfold stepWBlock at h
+  leaves h
+  all_goals (subst h; refine FInv_of_same (s := s) rfl ?_ hi; tqsame)
+
+theorem FInv_stepFlushStep {s s' : State} {k : Key} (hi : FInv s) (h : stepFlushStep s k = some s') : FInv s' := by
+  unfold stepFlushStep at h
+  leaves h
+  all_goals (subst h; refine FInv_of_same (s := s) rfl ?_ hi; tqsame)
+
+theorem FInv_stepCancelWrite {s s' : State} {k : Key} (hi : FInv s) (h : stepCancelWrite s k = some s') : FInv s' := by
+  unfold stepCancelWrite StreamSt.endWrite at h
+  leaves h
+  all_goals (subst h; refine FInv_of_same (s := s) rfl ?_ hi; tqsame)
+
+theorem FInv_stepCancelFlush {s s' : State} {k : Key} (hi : FInv s) (h : stepCancelFlush s k = some s') : FInv s' := by
+  unfold stepCancelFlush at h
+  leaves h
+  all_goals (subst h; refine FInv_of_same (s := s) rfl ?_ hi; tqsame)
+
 theorem FInv_stepAppOpen {s s' : State} {slot : Nat} {conn : Bool} {cap : Nat} (hi : FInv s) (h : stepAppOpen s slot conn cap = some s') : FInv s' := by
   unfold stepAppOpen at h
   leaves h
@@ -166,7 +196,7 @@ theorem FInv_stepAppWrite {s s' : State} {slot : Nat} {bytes : List Nat} (hi : F
   all_goals (subst h; refine FInv_of_same (s := s) rfl ?_ hi; tqsame)
 
 theorem FInv_stepWriteStep {s s' : State} {k : Key} (hi : FInv s) (h : stepWriteStep s k = some s') : FInv s' := by
-  unfold stepWriteStep at h
+  unfold stepWriteStep StreamSt.endWrite at h
   leaves h
   all_goals (subst h; refine FInv_of_same (s := s) rfl ?_ hi; tqsame)
 
@@ -274,6 +304,13 @@ theorem FInv_step {s s' : State} {e : Event} (hi : FInv s) (h : step? s e = some
   case writeStep k => exact FInv_stepWriteStep hi h
   case appFlush a => exact FInv_stepAppFlush hi h
   case appDrop a b c => exact FInv_stepAppDrop hi h
+  case wtake => exact FInv_stepWTake hi h
+  case wdo => exact FInv_stepWDo hi h
+  case wblock => exact FInv_stepWBlock hi h
+  case txWindow l => cases h; exact FInv_of_same (s := s) rfl (fun k => tqSame_refl _) hi
+  case flushStep k => exact FInv_stepFlushStep hi h
+  case cancelWrite k => exact FInv_stepCancelWrite hi h
+  case cancelFlush k => exact FInv_stepCancelFlush hi h
 
 theorem FInv_reachable {s : State} (h : Reachable s) : FInv s :=
   reachable_inv (P := FInv) FInv_init (fun _ _ _ hi hs => FInv_step hi hs) h
